@@ -133,9 +133,22 @@ class Gen(object):
         if not (empty_ok and mv >= 28 and rng.random() < 0.15):
             n = rng.choice([1, 1, 2, 2, 3])
             keys = list(v.invs)
+            # one request placing the SAME class on several providers (per-(provider, class) bookkeeping of the capacity
+            # check; usage of one provider must not be attributed to another)
+            same_rc = None
+            if keys and rng.random() < 0.3:
+                by_rc = {}
+                for k in keys:
+                    by_rc.setdefault(k[1], []).append(k)
+                multi = [ks for ks in by_rc.values() if len(ks) > 1]
+                if multi:
+                    same_rc = rng.choice(multi)
+                    n = max(n, 2)
             seen = set()
             for _ in range(n):
-                if keys and rng.random() < 0.9:
+                if same_rc and rng.random() < 0.85:
+                    k = rng.choice(same_rc)
+                elif keys and rng.random() < 0.9:
                     k = rng.choice(keys)
                 else:
                     k = (self.any_rp(v, 0.7), rng.choice(self.rcs_available(v) + ['CUSTOM_NOPE']))
